@@ -339,6 +339,11 @@ func (ev *evaluator) execAssign(lhs, rhs []ast.Expr, st state, info *types.Info,
 	if len(rhs) == 1 && len(lhs) > 1 {
 		rs, d := ev.evalLive(rhs[0], st, info)
 		dead = d
+		if ix, ok := ast.Unparen(rhs[0]).(*ast.IndexExpr); ok && len(lhs) == 2 {
+			if trs, ok := ev.tableLookup(ix, st, info); ok {
+				rs, dead = trs, nil
+			}
+		}
 		for _, r := range rs {
 			cur := r.st
 			for i, l := range lhs {
@@ -824,6 +829,13 @@ func (ev *evaluator) execFor(s *ast.ForStmt, label string, st state, info *types
 		// assigns, run the body once for its effects and assume it ends.
 		objs := assignedIn(s, info)
 		for _, is := range inits {
+			// a condition that is constant false at the head: the loop is not entered
+			if s.Cond != nil {
+				if rs := ev.evalExpr(s.Cond, is, info); len(rs) == 1 && rs[0].v.k == avConst && rs[0].v.c.Kind() == constant.Bool && !constant.BoolVal(rs[0].v.c) {
+					out = append(out, completion{kind: cNormal, st: rs[0].st})
+					continue
+				}
+			}
 			h := havoc(is, objs)
 			if s.Cond != nil {
 				out = append(out, completion{kind: cNormal, st: h})
